@@ -4,6 +4,9 @@
 package pdnode_coord
 
 import (
+	"sync/atomic"
+	"time"
+
 	"github.com/youzan/ZanRedisDB/cluster"
 )
 
@@ -18,4 +21,40 @@ func VerifRebalanced(ns string, partitionNum, replica int, old [][]string, nodes
 		return nil, false, err.String()
 	}
 	return r, false, ""
+}
+
+// ---- coordinator seams (C18) -------------------------------------------------------------
+
+// VerifZeroWaits removes the elapsed-time gates (time passing is an explorer event).
+func VerifZeroWaits() {
+	waitMigrateInterval = 0
+	waitRemoveRemovingNodeInterval = 0
+}
+
+// VerifSetDataNodes installs the live data node set the way handleDataNodes does.
+func (pdCoord *PDCoordinator) VerifSetDataNodes(nodes map[string]cluster.NodeInfo, epoch int64) {
+	pdCoord.nodesMutex.Lock()
+	pdCoord.dataNodes = nodes
+	pdCoord.nodesMutex.Unlock()
+	atomic.StoreInt64(&pdCoord.nodesEpoch, epoch)
+}
+
+// VerifCheckRound is one round of the namespace checker (checkNamespaces' body).
+func (pdCoord *PDCoordinator) VerifCheckRound(waiting map[string]map[int]time.Time) {
+	monitor := make(chan struct{})
+	pdCoord.doCheckNamespaces(monitor, nil, waiting, true)
+}
+
+// VerifBalanceAddOnce is one attempt of the balancer to add the node the layout wants
+// (addNodeToNamespaceAndWaitReady with a closed monitor channel returns after one attempt).
+func (pdCoord *PDCoordinator) VerifBalanceAddOnce(ns string, pid int) error {
+	nsInfo, err := pdCoord.register.GetNamespacePartInfo(ns, pid)
+	if err != nil {
+		return err
+	}
+	nodes := pdCoord.getCurrentNodes(nsInfo.Tags)
+	closed := make(chan struct{})
+	close(closed)
+	_, err = pdCoord.dpm.addNodeToNamespaceAndWaitReady(closed, nsInfo, getNodeNameList(nodes))
+	return err
 }
